@@ -134,7 +134,18 @@ func c16Combined(c *core.Ctx, b core.Batch, rep int) {
 	}
 	defer db.Close()
 	st := badgerstore.NewStore(db).SetPrefix("item").SetType(tItem{})
-	qs := badgerstore.NewQueryStore(st, idxIQ).AddIndex(badgerstore.Index{Name: "k", Key: idxKey("k", nil)}).AddIndex(badgerstore.Index{Name: "x2", Key: idxKey("k2", nil)})
+	// prepared holds an index query value that the callback hands out as it is for
+	// "prepared=1" (an application's ready-made "list everything" query, as in the
+	// book-collection example): several queries use the same value at the same time
+	var prepared atomic.Value
+	qs := badgerstore.NewQueryStore(st, func(qs *badgerstore.QueryStore, v url.Values) (*badgerstore.IndexQuery, error) {
+		if v.Get("prepared") == "1" {
+			if iq, ok := prepared.Load().(*badgerstore.IndexQuery); ok {
+				return iq, nil
+			}
+		}
+		return idxIQ(qs, v)
+	}).AddIndex(badgerstore.Index{Name: "k", Key: idxKey("k", nil)}).AddIndex(badgerstore.Index{Name: "x2", Key: idxKey("k2", nil)})
 	trans := store.IDToRIDCollectionTransformer(func(id string) string { return "svc.item." + id })
 	tbl := &scriptTable{}
 	scratch := &sync.Map{}
@@ -287,6 +298,15 @@ func c16Combined(c *core.Ctx, b core.Batch, rep int) {
 				qs.Flush()
 			}
 		})
+		for g := 0; g < 2; g++ {
+			g := g
+			worker(fmt.Sprintf("prepared-index-queries%d", g), func(r interface{ Intn(int) int }, n int) {
+				if g == 0 {
+					prepared.Store(&badgerstore.IndexQuery{Index: qs.Index("k"), KeyPrefix: []byte([]string{"", "a"}[n%2]), Limit: []int{-1, -1, 2, 0}[n%4], Offset: n % 3, Reverse: n%5 == 0})
+				}
+				qs.Query(url.Values{"prepared": {"1"}})
+			})
+		}
 		worker("query-requests", func(r interface{ Intn(int) int }, n int) {
 			// answer query events published by the query handler
 			log := rg.C.Since(maxInt(0, rg.C.Len()-50))
